@@ -1237,6 +1237,15 @@ def cond_rule(ctx, method, rule="ALG-Cond"):
             ck.fail("generate handles None and constraints", f"cases: {saw}")
     else:
         second = X if method == "update" else SEL
+        if method == "update":
+            # the constraint handed to the two branch updates (must be one and the same term); what it has to be is decided below
+            ups = [x for x in subterms(s.ret) if is_call(x) and x[1] in (("attr", ("attr", SELF, "callee"), "update"), ("attr", ("attr", SELF, "callee_"), "update")) and len(x[2]) >= 2]
+            seconds = list(dict.fromkeys(x[2][1] for x in ups))
+            if len(seconds) == 1:
+                second = seconds[0]
+            elif len(seconds) > 1:
+                ck.fail("both branch updates receive the same constraint", f"found {[short(y, ev, 60) for y in seconds]}")
+            cond_update_constraint(ctx, ev, lin, second, func_loc(ctx, dotted))
         a, b = cond_sub("callee", method, t0, second), cond_sub("callee_", method, t1, second)
         for asg, leaf in spine_cases(s.ret):
             it = items(leaf)
@@ -1247,6 +1256,53 @@ def cond_rule(ctx, method, rule="ALG-Cond"):
                   it[0], cond_tr(CHECK, ("idx", a, C(0)), ("idx", b, C(0))))
     ck.done()
     return ev, s, lin
+
+
+def cond_update_constraint(ctx, ev, lin, second, loc, rule="ALG-Cond"):
+    """Cond.update keeps unconstrained choices: the two branch traces hold different values at shared addresses (one visible, one hidden),
+    and a branch update falls back to its *own* old value wherever the constraint is silent.  On a branch switch that fallback is the
+    hidden value.  So the constraint handed to both branch updates must be the caller's constraint completed with the choices that were
+    visible in the old trace: CHOICES(tr) when x is None; merge(CHOICES(tr), x)[0] (x second: it wins) when x is a - possibly partial -
+    choice dictionary; x itself only when x is a raw value (which cannot be partial)."""
+    from .util import all_cases
+    construct = "core.Cond.update (constraint completion)"
+    X = ("param", "x")
+    OLD = CH(TR)
+    none_tests = {("cmp", "is", X, NONE): True, ("cmp", "is not", X, NONE): False, ("cmp", "==", X, NONE): True, ("cmp", "!=", X, NONE): False}
+
+    def is_merge(t, first, snd):
+        t = lin.norm(t)
+        return t[0] == "idx" and is_const(t[2], 0) and is_call(t[1]) and t[1][1][0] == "attr" and t[1][1][2] == "merge" \
+            and t[1][1][1] in (("attr", SELF, "callee"), ("attr", SELF, "callee_"), SELF) and len(t[1][2]) == 2 and lin.norm(t[1][2][0]) == lin.norm(first) and t[1][2][1] in snd
+    problems = []
+    for asg, leaf in all_cases(second):
+        is_none = None
+        is_dict = None
+        for c, v in asg.items():
+            if c in none_tests:
+                is_none = (none_tests[c] == v)
+            if is_call(c, name="builtins.isinstance") and len(c[2]) == 2 and c[2][0] == X:
+                is_dict = v
+        nl = lin.norm(leaf)
+        if is_none is True:
+            ok = nl == lin.norm(OLD) or is_merge(leaf, OLD, (("dict", ()), NONE))
+            want = "the old visible choices"
+        elif is_dict is False:
+            ok = leaf == X
+            want = "x (a raw value cannot be partial)"
+        else:
+            ok = is_merge(leaf, OLD, (X,))
+            want = "merge(old visible choices, x)[0] (x wins)"
+        if not ok:
+            when = "x is None" if is_none else ("x is not a dict" if is_dict is False else "x is a (possibly partial) choice dictionary")
+            problems.append(f"[{when}] both branches are updated with {short(leaf, ev, 100)}; expected {want}")
+    if problems:
+        ctx.bad(rule, construct, "constraint completed with the old visible choices before both branch updates",
+                "; ".join(dict.fromkeys(problems)) + ": each branch falls back to its own old value where the constraint is silent, so after a branch switch an unconstrained "
+                "address shows the newly selected branch's hidden value instead of keeping the visible one (update must keep unconstrained choices); input: "
+                "model.update(tr, {'z': ~z, 'y': {'a': 0.3}}) with y = Cond(br_a, br_b)(z) having addresses a, b", loc)
+    else:
+        ctx.ok(rule, construct, "both branches are updated with the constraint completed by the old visible choices")
 
 
 def ih_weight_axiom(x):
